@@ -87,6 +87,7 @@ type reg struct {
 }
 
 type run struct {
+	deadlock string
 	lines    []string
 	fail     *fail
 	runs     int64
@@ -431,7 +432,44 @@ func genScenario(r *vlib.Rand, big bool) []Step {
 // ---------------------------------------------------------------------------------------------
 // driving
 
+// watchdog: see harness-sched/c20. A scenario that does not finish within 20 s of real time means the
+// code under test livelocks inside the bubble.
+type watchdog struct {
+	mu    sync.Mutex
+	cur   *Case
+	since time.Time
+}
+
+func (w *watchdog) enter(c Case) {
+	w.mu.Lock()
+	w.cur, w.since = &c, time.Now()
+	w.mu.Unlock()
+}
+
+func (w *watchdog) leave() {
+	w.mu.Lock()
+	w.cur = nil
+	w.mu.Unlock()
+}
+
+func (w *watchdog) watch(res *vlib.Result, out string) {
+	for {
+		time.Sleep(500 * time.Millisecond)
+		w.mu.Lock()
+		c, since := w.cur, w.since
+		w.mu.Unlock()
+		if c != nil && time.Since(since) > 20*time.Second {
+			res.Fail(vlib.Failure{Source: "correspondence", Kind: "case-hangs", Params: map[string]interface{}{},
+				What: "the scenario did not finish: the code under test livelocks under virtual time (the model terminates on it)", Case: *c})
+			res.Write(out)
+			fmt.Println("watchdog: scenario hangs:", c.String())
+			os.Exit(0)
+		}
+	}
+}
+
 type runner struct {
+	wd     *watchdog
 	t      *testing.T
 	env    vlib.Env
 	res    *vlib.Result
@@ -451,11 +489,32 @@ func modelLines(lines []string) []string {
 	return out
 }
 
-func (x *runner) eval(c Case) run { return runScenario(x.t, c) }
+// eval runs one scenario. A bubble that cannot be left (a goroutine of the code under test is blocked
+// for good, e.g. a StopAndWait that never returns although every f has returned) surfaces as a panic
+// of synctest.Test; it is reported as a broken correspondence (the model's quiescent states all show
+// the call returned), not as a crash of the harness.
+func (x *runner) eval(c Case) run {
+	if x.wd != nil {
+		x.wd.enter(c)
+		defer x.wd.leave()
+	}
+	var r run
+	p, pv := vlib.Try(func() { r = runScenario(x.t, c) })
+	if p {
+		r.deadlock = fmt.Sprint(pv)
+	}
+	return r
+}
 
 func (x *runner) do(c Case, tag string) {
 	rr := x.eval(c)
 	x.res.Count("case." + tag)
+	if rr.deadlock != "" {
+		x.res.Count("bubble-deadlock")
+		x.res.Fail(vlib.Failure{Source: "correspondence", Kind: "bubble-deadlock", Params: map[string]interface{}{},
+			What: "goroutines of the code under test stayed blocked after the scenario had stopped the group and released every f: " + rr.deadlock, Case: c})
+		return
+	}
 	x.res.CountN("runs-of-f", int(rr.runs))
 	x.res.CountN("stopandwait-returned", rr.barriers)
 	if rr.raced {
@@ -555,7 +614,8 @@ func TestVerif(t *testing.T) {
 		return
 	}
 	res := vlib.NewResult("C17", "at least two runs of f began and a Stop/StopAndWait was issued")
-	x := &runner{t: t, env: env, res: res}
+	x := &runner{t: t, env: env, res: res, wd: &watchdog{}}
+	go x.wd.watch(res, env.Out)
 	defer func() {
 		x.flushModel()
 		if x.model != nil {
@@ -568,6 +628,31 @@ func TestVerif(t *testing.T) {
 		res.ModelMissing = err.Error()
 	} else {
 		x.model = m
+	}
+	// Model-vs-Spec search on the Lean side: spawns racing a StopAndWait, every interleaving. With the
+	// lock discipline of the unchanged code the LTS has no state "StopAndWait returned but a spawn is past
+	// its check" (that is the theorem); if the regenerated facts changed the discipline the search shows the
+	// interleaving even when the real scheduler never produces it.
+	if x.model != nil {
+		for _, lines := range [][]string{
+			{"async 0", "reg do 0 0", "saw", "cex"},
+			{"async 0", "reg do 0 0", "reg trig 0 0", "saw", "cex"},
+			{"async 0", "saw", "reg per 3 0", "stop", "cex"},
+		} {
+			out, err := x.model.Run(lines)
+			if err != nil {
+				res.ModelMissing = err.Error()
+				x.model = nil
+				break
+			}
+			res.Count("model-vs-spec-searches")
+			if last := out[len(out)-1]; strings.HasPrefix(last, "cex") {
+				res.Fail(vlib.Failure{Source: "correspondence", Kind: "model-counterexample-barrier",
+					Params: map[string]interface{}{"script": strings.Join(lines, "; ")},
+					What:   "in the Lean model of the code as it is now, " + last + " (interleaving of: " + strings.Join(lines[1:len(lines)-1], "; ") + ")",
+					Case:   lines})
+			}
+		}
 	}
 	rnd := vlib.NewRand(env.Seed)
 	seed := func() int64 { return int64(rnd.Uint64() >> 1) }
